@@ -164,3 +164,46 @@ if __name__ == "__main__":
     t = time.time()
     d = facts_dir()
     print(d, round(time.time() - t, 1), "s")
+
+
+def linked_bin(repo=REPO):
+    """bin unit with references into the library rewritten to the library's own keys, merged with
+    the library bodies (one program: main + everything it calls in the crate)"""
+    import copy
+    lib = load_unit("lib", repo)
+    binu = copy.deepcopy(load_unit("bin", repo))
+    dp_body = {b["dp"]: k for k, b in lib["bodies"].items() if "dp" in b}
+    dp_adt = {a["dp"]: k for k, a in lib["adts"].items() if "dp" in a}
+
+    def walk(x):
+        if isinstance(x, dict):
+            if "dp" in x and "path" in x and x["dp"] in dp_body:
+                x["path"] = dp_body[x["dp"]]
+                x["local"] = True
+            if "closure" in x and x.get("dp") in dp_body:
+                x["closure"] = dp_body[x["dp"]]
+            if "adt_dp" in x and x["adt_dp"] in dp_adt and "adt" in x:
+                x["adt"] = dp_adt[x["adt_dp"]]
+            for v in x.values():
+                walk(v)
+        elif isinstance(x, list):
+            for v in x:
+                walk(v)
+    walk(binu["bodies"])
+    merged = {"crate": "linked", "kind": "bin+lib", "unit": "linked", "nonce": binu.get("nonce"),
+              "bodies": dict(lib["bodies"]), "adts": dict(lib["adts"]), "impls": list(lib["impls"])}
+    for k, b in binu["bodies"].items():
+        merged["bodies"]["bin::" + k] = b
+    # closures of main are referenced by their bin-local key
+    def fix_closure(x):
+        if isinstance(x, dict):
+            if x.get("t") == "closure" and x.get("closure") in binu["bodies"]:
+                x["closure"] = "bin::" + x["closure"]
+            for v in x.values():
+                fix_closure(v)
+        elif isinstance(x, list):
+            for v in x:
+                fix_closure(v)
+    for k in binu["bodies"]:
+        fix_closure(merged["bodies"]["bin::" + k])
+    return merged
